@@ -1,3 +1,22 @@
+// h15: correspondence harness for C15 (loading a workflow is deterministic and prunes disabled
+// roles).
+//
+// Drives the real loader of /repo: a generated workflow template (nesting <= 5; aggregator,
+// iterator — `for: {range, var}` and `for: {begin, end, var}` —, task and call roles; `enabled`
+// expressions and variable references across levels; template errors injected in every stage) is
+// rendered as YAML, unmarshalled into a role tree under a ParentAdapter holding the
+// environment's defaults / vars / user vars and processed by ProcessTemplates (hook
+// workflow.VerifC15Load = Load minus repository manager and task-class refresh) with a stub
+// repos.IRepo, once under each of the 8 settings of the viper switches
+// concurrentWorkflowTemplateProcessing / concurrentWorkflowTemplateIteratorProcessing /
+// concurrentIteratorRoleExpansion plus once more under the all-concurrent setting. The processed
+// tree is dumped canonically (hook workflow.VerifC15Dump: Roles slices with iterator containers,
+// names, paths, enabled, own defaults/vars/user vars, constraints, channels, hook traits, task
+// class / call) and written, together with the template, as a Coq term; identical outcomes are
+// grouped by the bit mask of the settings that produced them.
+//
+// In a -race build (thorough tier) the harness re-executes itself with GORACE pointing at a log
+// file; every distinct race site reported while the loads ran becomes a CRace case.
 package main
 
 import (
@@ -5,6 +24,10 @@ import (
 	"fmt"
 	"io"
 	"os"
+	"os/exec"
+	"path/filepath"
+	"sort"
+	"strings"
 
 	"github.com/AliceO2Group/Control/common/event"
 	"github.com/AliceO2Group/Control/common/gera"
@@ -12,47 +35,1126 @@ import (
 	"github.com/AliceO2Group/Control/core/workflow"
 	"github.com/sirupsen/logrus"
 	"github.com/spf13/viper"
+
+	"verif/harness/internal/gen"
 )
+
+// ---------------------------------------------------------------- inputs (JSON, for replay)
+
+type piece struct {
+	Lit *string    `json:"lit,omitempty"`
+	Var string     `json:"var,omitempty"`
+	Eq  *[2]string `json:"eq,omitempty"`
+	Ne  *[2]string `json:"ne,omitempty"`
+	Bad *int       `json:"bad,omitempty"`
+}
+type texpr []piece
+
+type field struct {
+	K string `json:"k"`
+	T texpr  `json:"t"`
+}
+
+type forIn struct {
+	Range texpr  `json:"range,omitempty"`
+	Begin texpr  `json:"begin,omitempty"`
+	End   texpr  `json:"end,omitempty"`
+	BE    bool   `json:"be,omitempty"` // begin/end form
+	Var   string `json:"var"`
+}
+
+type chanIn struct {
+	Name   string `json:"name"`
+	Type   string `json:"type"`
+	Target texpr  `json:"target,omitempty"` // connect
+	Global texpr  `json:"global,omitempty"` // bind
+}
+
+type roleIn struct {
+	For         *forIn    `json:"for,omitempty"`
+	Kind        string    `json:"kind"` // task | call | agg
+	Name        texpr     `json:"name"`
+	Enabled     *texpr    `json:"enabled,omitempty"` // nil: field omitted (default "true")
+	Defaults    []field   `json:"defaults,omitempty"`
+	Vars        []field   `json:"vars,omitempty"`
+	Load        texpr     `json:"load,omitempty"`
+	Func        texpr     `json:"func,omitempty"`
+	Return      texpr     `json:"return,omitempty"`
+	Trigger     texpr     `json:"trigger,omitempty"`
+	Await       texpr     `json:"await,omitempty"`
+	Timeout     texpr     `json:"timeout,omitempty"`
+	Critical    *bool     `json:"critical,omitempty"`
+	Constraints []field   `json:"constraints,omitempty"`
+	Connect     []chanIn  `json:"connect,omitempty"`
+	Bind        []chanIn  `json:"bind,omitempty"`
+	Kids        []*roleIn `json:"kids,omitempty"`
+}
+
+type input struct {
+	D    map[string]string `json:"d"`
+	V    map[string]string `json:"v"`
+	U    map[string]string `json:"u"`
+	Root *roleIn           `json:"root"`
+	Note string            `json:"note,omitempty"`
+}
+
+// ---------------------------------------------------------------- template text
+
+var badForms = []string{"{{ 1 + }}", "{{ == 'a' }}", "{{ nofn() }}", "{{ x y }}"}
+
+func lit(s string) piece  { return piece{Lit: &s} }
+func tl(s string) texpr   { return texpr{lit(s)} }
+func pvar(k string) piece { return piece{Var: k} }
+func bad(n int) piece     { return piece{Bad: &n} }
+
+func (p piece) text() string {
+	switch {
+	case p.Lit != nil:
+		return *p.Lit
+	case p.Var != "":
+		return "{{ " + p.Var + " }}"
+	case p.Eq != nil:
+		return "{{ " + p.Eq[0] + " == '" + p.Eq[1] + "' }}"
+	case p.Ne != nil:
+		return "{{ " + p.Ne[0] + " != '" + p.Ne[1] + "' }}"
+	case p.Bad != nil:
+		n := *p.Bad
+		if n < 0 || n >= len(badForms) {
+			n = len(badForms) - 1
+		}
+		return badForms[n]
+	}
+	return ""
+}
+
+func (t texpr) text() string {
+	var b strings.Builder
+	for _, p := range t {
+		b.WriteString(p.text())
+	}
+	return b.String()
+}
+
+func (p piece) term() string {
+	switch {
+	case p.Lit != nil:
+		return "PLit " + gen.Str(*p.Lit)
+	case p.Var != "":
+		return "PVar " + gen.Str(p.Var)
+	case p.Eq != nil:
+		return "PEq " + gen.Str(p.Eq[0]) + " " + gen.Str(p.Eq[1])
+	case p.Ne != nil:
+		return "PNe " + gen.Str(p.Ne[0]) + " " + gen.Str(p.Ne[1])
+	case p.Bad != nil:
+		n := *p.Bad
+		if n < 0 || n >= len(badForms) {
+			n = len(badForms) - 1
+		}
+		return fmt.Sprintf("PBad %d", n)
+	}
+	return "PLit []"
+}
+
+func (t texpr) term() string {
+	items := make([]string, len(t))
+	for i, p := range t {
+		items[i] = p.term()
+	}
+	return gen.List(items)
+}
+
+func fieldsTerm(fs []field) string {
+	items := make([]string, len(fs))
+	for i, f := range fs {
+		items[i] = gen.Pair(gen.Str(f.K), f.T.term())
+	}
+	return gen.List(items)
+}
+
+// ---------------------------------------------------------------- YAML rendering
+
+func yq(s string) string { b, _ := json.Marshal(s); return string(b) } // JSON string = YAML double-quoted scalar
+
+func pad(n int) string { return strings.Repeat("  ", n) }
+
+func emitChan(b *strings.Builder, c chanIn, ind int, bind bool) {
+	fmt.Fprintf(b, "%s- name: %s\n", pad(ind), yq(c.Name))
+	fmt.Fprintf(b, "%s  type: %s\n", pad(ind), yq(c.Type))
+	if bind {
+		if g := c.Global.text(); g != "" {
+			fmt.Fprintf(b, "%s  global: %s\n", pad(ind), yq(g))
+		}
+	} else {
+		fmt.Fprintf(b, "%s  target: %s\n", pad(ind), yq(c.Target.text()))
+	}
+}
+
+// emitRole writes the mapping of one role; first = the first key goes right after "- ".
+func emitRole(b *strings.Builder, r *roleIn, ind int) {
+	key := func(k, v string) { fmt.Fprintf(b, "%s%s: %s\n", pad(ind), k, v) }
+	key("name", yq(r.Name.text()))
+	if r.Enabled != nil {
+		key("enabled", yq(r.Enabled.text()))
+	}
+	if r.For != nil {
+		fmt.Fprintf(b, "%sfor:\n", pad(ind))
+		if r.For.BE {
+			fmt.Fprintf(b, "%s  begin: %s\n%s  end: %s\n", pad(ind), yq(r.For.Begin.text()), pad(ind), yq(r.For.End.text()))
+		} else {
+			fmt.Fprintf(b, "%s  range: %s\n", pad(ind), yq(r.For.Range.text()))
+		}
+		fmt.Fprintf(b, "%s  var: %s\n", pad(ind), yq(r.For.Var))
+	}
+	for _, m := range []struct {
+		n  string
+		fs []field
+	}{{"defaults", r.Defaults}, {"vars", r.Vars}} {
+		if len(m.fs) == 0 {
+			continue
+		}
+		fmt.Fprintf(b, "%s%s:\n", pad(ind), m.n)
+		for _, f := range m.fs {
+			fmt.Fprintf(b, "%s  %s: %s\n", pad(ind), yq(f.K), yq(f.T.text()))
+		}
+	}
+	if len(r.Constraints) > 0 {
+		fmt.Fprintf(b, "%sconstraints:\n", pad(ind))
+		for _, c := range r.Constraints {
+			fmt.Fprintf(b, "%s  - attribute: %s\n%s    value: %s\n", pad(ind), yq(c.K), pad(ind), yq(c.T.text()))
+		}
+	}
+	if len(r.Connect) > 0 {
+		fmt.Fprintf(b, "%sconnect:\n", pad(ind))
+		for _, c := range r.Connect {
+			emitChan(b, c, ind+1, false)
+		}
+	}
+	if len(r.Bind) > 0 {
+		fmt.Fprintf(b, "%sbind:\n", pad(ind))
+		for _, c := range r.Bind {
+			emitChan(b, c, ind+1, true)
+		}
+	}
+	traits := func() {
+		if len(r.Trigger) > 0 {
+			fmt.Fprintf(b, "%s  trigger: %s\n", pad(ind), yq(r.Trigger.text()))
+			if len(r.Await) > 0 {
+				fmt.Fprintf(b, "%s  await: %s\n", pad(ind), yq(r.Await.text()))
+			}
+		}
+		if len(r.Timeout) > 0 {
+			fmt.Fprintf(b, "%s  timeout: %s\n", pad(ind), yq(r.Timeout.text()))
+		}
+		if r.Critical != nil {
+			fmt.Fprintf(b, "%s  critical: %v\n", pad(ind), *r.Critical)
+		}
+	}
+	switch r.Kind {
+	case "task":
+		fmt.Fprintf(b, "%stask:\n%s  load: %s\n", pad(ind), pad(ind), yq(r.Load.text()))
+		traits()
+	case "call":
+		fmt.Fprintf(b, "%scall:\n%s  func: %s\n%s  return: %s\n", pad(ind), pad(ind), yq(r.Func.text()), pad(ind), yq(r.Return.text()))
+		traits()
+	default:
+		fmt.Fprintf(b, "%sroles:\n", pad(ind))
+		for _, k := range r.Kids {
+			var kb strings.Builder
+			emitRole(&kb, k, ind+2)
+			s := kb.String()
+			// turn the first line's indentation into "- "
+			prefix := pad(ind + 2)
+			s = pad(ind+1) + "- " + strings.TrimPrefix(s, prefix)
+			b.WriteString(s)
+		}
+	}
+}
+
+func renderYAML(r *roleIn) string {
+	var b strings.Builder
+	emitRole(&b, r, 0)
+	return b.String()
+}
+
+// ---------------------------------------------------------------- Coq terms of the template
+
+// effective stage-4 fields after the defaulting done by taskRole/callRole.UnmarshalYAML
+func (r *roleIn) s4() []field {
+	if r.Kind == "agg" {
+		return nil
+	}
+	var timeout, trigger, await texpr
+	if len(r.Trigger) > 0 && r.Trigger.text() != "" {
+		trigger = r.Trigger
+		if len(r.Timeout) > 0 && r.Timeout.text() != "" {
+			timeout = r.Timeout
+		} else {
+			timeout = tl("30s")
+		}
+		if len(r.Await) > 0 && r.Await.text() != "" {
+			await = r.Await
+		} else {
+			await = r.Trigger
+		}
+	} else {
+		if len(r.Timeout) > 0 && r.Timeout.text() != "" {
+			timeout = r.Timeout
+		} else {
+			timeout = tl("0s")
+		}
+	}
+	tail := []field{{"timeout", timeout}, {"trigger", trigger}, {"await", await}}
+	if r.Kind == "task" {
+		return append([]field{{"load", r.Load}}, tail...)
+	}
+	return append([]field{{"func", r.Func}, {"return", r.Return}}, tail...)
+}
+
+func (r *roleIn) s5() []field {
+	var fs []field
+	for _, c := range r.Constraints {
+		fs = append(fs, field{"c:" + c.K + ":EQUALS", c.T})
+	}
+	for _, c := range r.Connect {
+		fs = append(fs, field{">:" + c.Name + ":" + c.Type + ":default", c.Target})
+	}
+	for _, c := range r.Bind {
+		fs = append(fs, field{"<:" + c.Name + ":" + c.Type + ":default", c.Global})
+	}
+	return fs
+}
+
+func (r *roleIn) critical() bool {
+	if r.Kind == "agg" {
+		return false
+	}
+	if r.Critical != nil {
+		return *r.Critical
+	}
+	return true
+}
+
+func kindTerm(k string) string {
+	switch k {
+	case "task":
+		return "KTask"
+	case "call":
+		return "KCall"
+	}
+	return "KAgg"
+}
+
+func (r *roleIn) term() string {
+	fo := "None"
+	if r.For != nil {
+		rng := "RExpr " + r.For.Range.term()
+		if r.For.BE {
+			rng = "RBeginEnd " + r.For.Begin.term() + " " + r.For.End.term()
+		}
+		fo = fmt.Sprintf("(Some (mkFor (%s) %s))", rng, gen.Str(r.For.Var))
+	}
+	en := tl("true")
+	if r.Enabled != nil {
+		en = *r.Enabled
+	}
+	kids := make([]string, len(r.Kids))
+	for i, k := range r.Kids {
+		kids[i] = k.term()
+	}
+	return fmt.Sprintf("(Role %s %s (mkBase %s %s %s %s %s %s %s) %s)", fo, kindTerm(r.Kind),
+		r.Name.term(), en.term(), fieldsTerm(r.Defaults), fieldsTerm(r.Vars),
+		fieldsTerm(r.s4()), fieldsTerm(r.s5()), gen.Bool(r.critical()), gen.List(kids))
+}
+
+func ctxTerm(in *input) string {
+	return fmt.Sprintf("(mkCtx %s %s %s)", gen.KVs(in.D), gen.KVs(in.V), gen.KVs(in.U))
+}
+
+// ---------------------------------------------------------------- running the loader
 
 type stubRepo struct{}
 
-func (stubRepo) GetIdentifier() string                              { return "verif/repo" }
-func (stubRepo) GetCloneDir() string                                { return "/nonexistent" }
-func (stubRepo) ResolveTaskClassIdentifier(s string) string         { return "R/tasks/" + s + "@h" }
-func (stubRepo) ResolveSubworkflowTemplateIdentifier(s string) string { return "R/workflows/" + s + "@h" }
-func (stubRepo) GetProtocol() string                                { return "local" }
-func (stubRepo) GetHash() string                                    { return "h" }
-func (stubRepo) GetRevisions() []string                             { return nil }
-func (stubRepo) GetDefaultRevision() string                         { return "h" }
-func (stubRepo) IsDefault() bool                                    { return true }
-func (stubRepo) GetTaskTemplatePath(string) string                  { return "" }
-func (stubRepo) GetDplCommand(string) (string, error)               { return "", fmt.Errorf("no dpl") }
+func (stubRepo) GetIdentifier() string                      { return "R" }
+func (stubRepo) GetCloneDir() string                        { return "/nonexistent" }
+func (stubRepo) ResolveTaskClassIdentifier(s string) string { return "R/tasks/" + s + "@h" }
+func (stubRepo) ResolveSubworkflowTemplateIdentifier(s string) string {
+	return "R/workflows/" + s + "@h"
+}
+func (stubRepo) GetProtocol() string                  { return "local" }
+func (stubRepo) GetHash() string                      { return "h" }
+func (stubRepo) GetRevisions() []string               { return nil }
+func (stubRepo) GetDefaultRevision() string           { return "h" }
+func (stubRepo) IsDefault() bool                      { return true }
+func (stubRepo) GetTaskTemplatePath(string) string    { return "" }
+func (stubRepo) GetDplCommand(string) (string, error) { return "", fmt.Errorf("no dpl") }
 
 var nilID = uid.NilID()
 
+func copyMap(m map[string]string) map[string]string {
+	c := make(map[string]string, len(m))
+	for k, v := range m {
+		c[k] = v
+	}
+	return c
+}
+
 func parentAdapter(d, v, u map[string]string) *workflow.ParentAdapter {
-	gd, gv, gu := gera.MakeMapWithMap(d), gera.MakeMapWithMap(v), gera.MakeMapWithMap(u)
+	gd, gv, gu := gera.MakeMapWithMap(copyMap(d)), gera.MakeMapWithMap(copyMap(v)), gera.MakeMapWithMap(copyMap(u))
 	return workflow.NewParentAdapter(func() uid.ID { return nilID }, func() uint32 { return 0 },
 		func() gera.Map[string, string] { return gd }, func() gera.Map[string, string] { return gv },
 		func() gera.Map[string, string] { return gu }, func(event.Event) {})
 }
 
-func main() {
-	logrus.SetOutput(io.Discard)
-	viper.Set("config_endpoint", "mock://")
-	doc, _ := io.ReadAll(os.Stdin)
-	for s := 0; s < 8; s += 7 {
-		viper.Set("concurrentWorkflowTemplateProcessing", s&1 != 0)
-		viper.Set("concurrentWorkflowTemplateIteratorProcessing", s&2 != 0)
-		viper.Set("concurrentIteratorRoleExpansion", s&4 != 0)
-		pa := parentAdapter(map[string]string{"d0": "dv"}, map[string]string{"x": "a", "lst": `["p","q"]`}, map[string]string{"u0": "uv"})
-		root, stage, err := workflow.VerifC15Load(doc, nil, pa, stubRepo{}, map[string]string{})
-		if err != nil {
-			fmt.Println("setting", s, "ERROR at", stage, ":", err)
+func kvsTerm(m map[string]string) string { return gen.KVs(m) }
+
+func pairsTerm(ps [][2]string) string {
+	items := make([]string, len(ps))
+	for i, p := range ps {
+		items[i] = gen.Pair(gen.Str(p[0]), gen.Str(p[1]))
+	}
+	return gen.List(items)
+}
+
+// nodeTerm prints a dumped node; parentPath is used to check the stored path (a wrong path is
+// made visible in the name so that the comparison fails).
+func nodeTerm(n *workflow.VerifC15Node, parentPath string) string {
+	wantPath := n.Name
+	if parentPath != "" {
+		wantPath = parentPath + "." + n.Name
+	}
+	name := n.Name
+	if n.Path != wantPath {
+		name = "\x00path=" + n.Path + " name=" + n.Name
+	}
+	kids := make([]string, len(n.Children))
+	if n.Kind == "iterator" {
+		for i, k := range n.Children {
+			kids[i] = nodeTerm(k, parentPath)
+		}
+		return fmt.Sprintf("(OIter %s %s %s)", gen.Str(name), gen.Str(n.Enabled), gen.List(kids))
+	}
+	for i, k := range n.Children {
+		kids[i] = nodeTerm(k, n.Path)
+	}
+	var s4 [][2]string
+	kind := "KAgg"
+	switch n.Kind {
+	case "task":
+		kind = "KTask"
+		s4 = [][2]string{{"load", n.Load}, {"timeout", n.Timeout}, {"trigger", n.Trigger}, {"await", n.Await}}
+	case "call":
+		kind = "KCall"
+		s4 = [][2]string{{"func", n.Func}, {"return", n.Return}, {"timeout", n.Timeout}, {"trigger", n.Trigger}, {"await", n.Await}}
+	case "aggregator":
+	default:
+		name = "\x00kind=" + n.Kind + " name=" + n.Name
+	}
+	var s5 [][2]string
+	for _, c := range n.Constraints {
+		s5 = append(s5, [2]string{"c:" + c[0] + ":" + c[2], c[1]})
+	}
+	for _, c := range n.Connect {
+		s5 = append(s5, [2]string{">:" + c.Name + ":" + c.Type + ":" + c.Transport, c.Target})
+	}
+	for _, c := range n.Bind {
+		s5 = append(s5, [2]string{"<:" + c.Name + ":" + c.Type + ":" + c.Transport, c.Global})
+	}
+	defs := n.Defaults
+	if len(n.UserVars) > 0 { // never expected after a load
+		defs = copyMap(defs)
+		j, _ := json.Marshal(n.UserVars)
+		defs["\x00uservars"] = string(j)
+	}
+	return fmt.Sprintf("(ONode %s (mkInfo %s %s %s %s %s %s) %s %s)", kind, gen.Str(name), gen.Str(n.Enabled),
+		kvsTerm(defs), kvsTerm(n.Vars), pairsTerm(s4), pairsTerm(s5), gen.Bool(n.Critical), gen.List(kids))
+}
+
+type loadObs struct {
+	Term string                 // Coq outcome
+	Err  string                 // error text (not compared)
+	Tree *workflow.VerifC15Node // dump
+}
+
+func setSwitches(s int) {
+	viper.Set("concurrentWorkflowTemplateProcessing", s&1 != 0)
+	viper.Set("concurrentWorkflowTemplateIteratorProcessing", s&2 != 0)
+	viper.Set("concurrentIteratorRoleExpansion", s&4 != 0)
+}
+
+func loadOnce(doc []byte, in *input, setting int) loadObs {
+	setSwitches(setting)
+	pa := parentAdapter(in.D, in.V, in.U)
+	root, stage, err := workflow.VerifC15Load(doc, nil, pa, stubRepo{}, map[string]string{"base": "cfg"})
+	if err != nil {
+		if stage != "templates" {
+			// the generated documents always unmarshal; make a decoding failure visible
+			return loadObs{Term: "(OTree (OIter " + gen.Str("\x00unmarshal: "+err.Error()) + " [] []))", Err: err.Error()}
+		}
+		if workflow.VerifC15IsRoleDisabled(err) {
+			return loadObs{Term: "(OTree (OIter " + gen.Str("\x00role-disabled error escaped") + " [] []))", Err: err.Error()}
+		}
+		return loadObs{Term: "OErr", Err: err.Error()}
+	}
+	d := workflow.VerifC15Dump(root)
+	return loadObs{Term: "(OTree " + nodeTerm(d, "") + ")", Tree: d}
+}
+
+// settings: the 8 switch settings, then the all-concurrent setting once more (bit 8)
+var settings = []int{0, 1, 2, 3, 4, 5, 6, 7, 7}
+
+type obsGroup struct {
+	Mask  int    `json:"settings_mask"`
+	Error string `json:"error,omitempty"`
+	Roles any    `json:"visible_roles,omitempty"`
+}
+
+func visiblePaths(n *workflow.VerifC15Node, out *[]string) {
+	if n.Kind != "iterator" {
+		*out = append(*out, n.Kind+" "+n.Path)
+	}
+	for _, k := range n.Children {
+		visiblePaths(k, out)
+	}
+}
+
+func runCase(in *input, kind string) gen.Case {
+	doc := []byte(renderYAML(in.Root))
+	var order []string
+	groups := map[string]*obsGroup{}
+	for i, s := range settings {
+		o := loadOnce(doc, in, s)
+		g, ok := groups[o.Term]
+		if !ok {
+			g = &obsGroup{Error: o.Err}
+			if o.Tree != nil {
+				var vp []string
+				visiblePaths(o.Tree, &vp)
+				g.Roles = vp
+			}
+			groups[o.Term] = g
+			order = append(order, o.Term)
+		}
+		g.Mask |= 1 << i
+	}
+	items := make([]string, len(order))
+	obs := make([]*obsGroup, len(order))
+	for i, t := range order {
+		items[i] = gen.Pair(gen.N(uint64(groups[t].Mask)), t)
+		obs[i] = groups[t]
+	}
+	term := fmt.Sprintf("CLoad %s %s %s", ctxTerm(in), in.Root.term(), gen.List(items))
+	return gen.Case{Term: term, Kind: kind, Input: in, Obs: map[string]any{"yaml": string(doc), "outcomes": obs}}
+}
+
+// ---------------------------------------------------------------- generator
+
+var keyPool = []string{"x", "y", "det", "n", "lst", "on", "w", "q"}
+var iterVars = []string{"it", "k", "x", "det"} // the last two collide with environment keys on purpose
+var valPool = []string{"a", "b", "true", "false", "1", "TPC", "", "2", "a"}
+var listVals = []string{`["p","q"]`, `[]`, `["s"]`, `[ "u" , "v","w" ]`, `["a","a"]`}
+var litPool = []string{"r", "flp", "-", "n", "A b", "x_1", "0", "tcp://h:1", "stf", ""}
+
+type scope map[string]bool
+
+func (s scope) with(keys ...string) scope {
+	c := scope{}
+	for k := range s {
+		c[k] = true
+	}
+	for _, k := range keys {
+		c[k] = true
+	}
+	return c
+}
+
+func (s scope) keys() []string {
+	ks := make([]string, 0, len(s))
+	for k := range s {
+		ks = append(ks, k)
+	}
+	sort.Strings(ks)
+	return ks
+}
+
+type gctx struct {
+	r      *gen.Rand
+	budget int // template roles left
+	faults []string
+	fault  int // countdown: the field visit at which a fault is injected (-1: none pending)
+	fkind  string
+	hit    bool
+	listK  []string // environment keys holding JSON lists
+	numK   []string // environment keys holding numbers
+}
+
+// ref picks a defined key (or, rarely in fault mode, an undefined one)
+func (g *gctx) ref(sc scope) string {
+	ks := sc.keys()
+	if len(ks) == 0 {
+		return ""
+	}
+	return ks[g.r.Intn(len(ks))]
+}
+
+// maybeFault: called once per generated field of class cls; returns a faulty expression when this
+// is the field chosen for injection.
+func (g *gctx) maybeFault(cls string, sc scope) (texpr, bool) {
+	if g.fkind != cls {
+		return nil, false
+	}
+	g.fault--
+	if g.fault != 0 {
+		return nil, false
+	}
+	g.hit = true
+	switch g.r.Intn(3) {
+	case 0:
+		return texpr{bad(g.r.Intn(len(badForms)))}, true
+	case 1:
+		return texpr{lit("p"), pvar("undefined_" + cls)}, true
+	default:
+		return texpr{piece{Eq: &[2]string{"nokey", "a"}}}, true
+	}
+}
+
+// value expression over the scope
+func (g *gctx) valueExpr(sc scope) texpr {
+	r := g.r
+	switch r.Intn(6) {
+	case 0, 1:
+		return tl(r.Pick(litPool))
+	case 2, 3:
+		if k := g.ref(sc); k != "" {
+			return texpr{pvar(k)}
+		}
+		return tl(r.Pick(valPool))
+	case 4:
+		if k := g.ref(sc); k != "" {
+			return texpr{lit(r.Pick(litPool)), pvar(k), lit(r.Pick([]string{"", "-z", " "}))}
+		}
+		return tl(r.Pick(valPool))
+	default:
+		return tl(r.Pick(valPool))
+	}
+}
+
+func (g *gctx) enabledExpr(sc scope, forRole bool) *texpr {
+	r := g.r
+	if t, ok := g.maybeFault("enabled", sc); ok {
+		return &t
+	}
+	p := r.Intn(100)
+	nonLit := 30
+	if forRole {
+		nonLit = 12
+	}
+	switch {
+	case p < nonLit:
+		k := g.ref(sc)
+		if k == "" {
+			return nil
+		}
+		var t texpr
+		switch r.Intn(4) {
+		case 0:
+			t = texpr{pvar(k)}
+		case 1:
+			t = texpr{piece{Ne: &[2]string{k, r.Pick(valPool)}}}
+		default:
+			t = texpr{piece{Eq: &[2]string{k, r.Pick(valPool)}}}
+		}
+		return &t
+	case p < nonLit+12:
+		t := tl(r.Pick([]string{"true", " TRUE ", "1", "True", "false", "0", "no", "", " false", "\ttrue\n"}))
+		return &t
+	case p < nonLit+20:
+		t := tl("true")
+		return &t
+	}
+	return nil
+}
+
+func (g *gctx) mapFields(cls string, sc scope, avoid map[string]bool) []field {
+	r := g.r
+	n := 0
+	switch r.Intn(5) {
+	case 0, 1:
+		n = 1
+	case 2:
+		n = 2
+	}
+	var fs []field
+	seen := map[string]bool{}
+	for i := 0; i < n; i++ {
+		k := r.Pick(keyPool)
+		if r.Chance(1, 5) {
+			k = r.Pick(iterVars)
+		}
+		if seen[k] {
 			continue
 		}
-		j, _ := json.MarshalIndent(workflow.VerifC15Dump(root), "", " ")
-		fmt.Println("setting", s, string(j))
-		fmt.Println(workflow.VerifC15Visible(root))
+		seen[k] = true
+		t, ok := g.maybeFault(cls, sc)
+		if !ok {
+			t = g.valueExpr(sc)
+		}
+		fs = append(fs, field{k, t})
+	}
+	return fs
+}
+
+func keysOf(fs []field) []string {
+	ks := make([]string, len(fs))
+	for i, f := range fs {
+		ks[i] = f.K
+	}
+	return ks
+}
+
+func (g *gctx) forSpec(sc scope) *forIn {
+	r := g.r
+	f := &forIn{Var: r.Pick(iterVars)}
+	if t, ok := g.maybeFault("range", sc); ok {
+		if r.Chance(1, 2) {
+			f.Range = t
+		} else {
+			f.BE, f.Begin, f.End = true, tl("1"), t
+		}
+		return f
+	}
+	if g.fkind == "rangeval" {
+		g.fault--
+		if g.fault == 0 {
+			g.hit = true
+			switch r.Intn(4) {
+			case 0:
+				f.Range = tl(r.Pick([]string{`[1,2]`, `["a"`, `notjson`, ``, `["a",]`, `{"a":"b"}`, `["a"] x`}))
+			case 1:
+				f.BE, f.Begin, f.End = true, tl(r.Pick([]string{"one", "", " 1", "1.5", "0x1"})), tl("2")
+			case 2:
+				f.BE, f.Begin, f.End = true, tl("0"), tl(r.Pick([]string{"two", "", "2 ", "1e1"}))
+			default:
+				f.Range = tl(`["a\qb"]`)
+			}
+			return f
+		}
+	}
+	switch r.Intn(10) {
+	case 0, 1, 2, 3:
+		f.Range = tl(r.Pick(listVals))
+	case 4:
+		if len(g.listK) > 0 {
+			k := g.listK[r.Intn(len(g.listK))]
+			if sc[k] {
+				f.Range = texpr{pvar(k)}
+				break
+			}
+		}
+		f.Range = tl(`["m"]`)
+	case 5:
+		f.Range = tl(r.Pick([]string{`[]`, ` [ ] `, `null`}))
+	case 6, 7, 8:
+		f.BE = true
+		b := r.Range(-1, 2)
+		e := b + r.Range(-1, 2)
+		f.Begin, f.End = tl(fmt.Sprint(b)), tl(fmt.Sprint(e))
+		if r.Chance(1, 5) {
+			f.Begin = tl("+" + fmt.Sprint(r.Range(0, 1)))
+			f.End = tl("0" + fmt.Sprint(r.Range(1, 2)))
+		}
+	default:
+		f.BE = true
+		f.Begin = tl("1")
+		if len(g.numK) > 0 && sc[g.numK[0]] {
+			f.End = texpr{pvar(g.numK[0])}
+		} else {
+			f.End = tl("2")
+		}
+	}
+	return f
+}
+
+func (g *gctx) role(depth int, sc scope, mustAgg bool) *roleIn {
+	r := g.r
+	g.budget--
+	ro := &roleIn{}
+	// kind
+	p := r.Intn(100)
+	switch {
+	case mustAgg || (p < 30 && depth < 5 && g.budget > 1):
+		ro.Kind = "agg"
+	case p < 78:
+		ro.Kind = "task"
+	default:
+		ro.Kind = "call"
+	}
+	isFor := !mustAgg && r.Chance(1, 4)
+	local := sc
+	if isFor {
+		ro.For = g.forSpec(sc)
+		local = sc.with(ro.For.Var)
+	}
+	ro.Enabled = g.enabledExpr(local, isFor)
+	ro.Defaults = g.mapFields("defaults", local, nil)
+	sc2 := local.with(keysOf(ro.Defaults)...)
+	ro.Vars = g.mapFields("vars", sc2, nil)
+	sc3 := sc2.with(keysOf(ro.Vars)...)
+	// name
+	if t, ok := g.maybeFault("name", sc3); ok {
+		ro.Name = t
+	} else {
+		base := fmt.Sprintf("%c%d", ro.Kind[0], r.Intn(4))
+		switch {
+		case isFor && r.Chance(5, 6):
+			ro.Name = texpr{lit(base + "-"), pvar(ro.For.Var)}
+		case r.Chance(1, 6):
+			if k := g.ref(sc3); k != "" {
+				ro.Name = texpr{lit(base + "_"), pvar(k)}
+				break
+			}
+			ro.Name = tl(base)
+		default:
+			ro.Name = tl(base)
+		}
+	}
+	s4val := func(def string) texpr {
+		if t, ok := g.maybeFault("s4", sc3); ok {
+			return t
+		}
+		if r.Chance(1, 4) {
+			if k := g.ref(sc3); k != "" {
+				return texpr{lit(def + "-"), pvar(k)}
+			}
+		}
+		return tl(def)
+	}
+	if ro.Kind != "agg" {
+		if ro.Kind == "task" {
+			ro.Load = s4val(r.Pick([]string{"readout", "stfb", "qc"}))
+		} else {
+			ro.Func = s4val(r.Pick([]string{"odc.Configure()", "dcs.StartOfRun()", "noop()"}))
+			ro.Return = s4val(r.Pick([]string{"", "rv", "odc_state"}))
+		}
+		if r.Chance(1, 3) {
+			ro.Trigger = s4val(r.Pick([]string{"before_CONFIGURE", "after_START_ACTIVITY+10", "leave_RUNNING-5"}))
+			if r.Chance(1, 2) {
+				ro.Await = s4val(r.Pick([]string{"after_CONFIGURE", "before_STOP_ACTIVITY"}))
+			}
+		}
+		if r.Chance(1, 3) {
+			ro.Timeout = s4val(r.Pick([]string{"10s", "1m", "500ms"}))
+		}
+		if r.Chance(1, 3) {
+			c := r.Chance(1, 2)
+			ro.Critical = &c
+		}
+	}
+	s5val := func() texpr {
+		if t, ok := g.maybeFault("s5", sc3); ok {
+			return t
+		}
+		return g.valueExpr(sc3)
+	}
+	if r.Chance(1, 3) {
+		for i := r.Range(1, 2); i > 0; i-- {
+			ro.Constraints = append(ro.Constraints, field{r.Pick([]string{"machine_id", "rack", "type"}), s5val()})
+		}
+	}
+	if r.Chance(1, 5) {
+		// Channel.UnmarshalYAML trims the target text, so the template proper is the trimmed text
+		ro.Connect = append(ro.Connect, chanIn{Name: r.Pick([]string{"in", "data"}), Type: r.Pick([]string{"pull", "sub"}), Target: trimExpr(s5val())})
+	}
+	if r.Chance(1, 5) {
+		c := chanIn{Name: r.Pick([]string{"out", "mon"}), Type: r.Pick([]string{"push", "pub"})}
+		if r.Chance(2, 3) {
+			c.Global = s5val()
+		}
+		ro.Bind = append(ro.Bind, c)
+	}
+	if ro.Kind == "agg" {
+		n := r.Range(1, 3)
+		if mustAgg {
+			n = r.Range(1, 4)
+		}
+		for i := 0; i < n; i++ {
+			if i > 0 && g.budget <= 0 {
+				break
+			}
+			ro.Kids = append(ro.Kids, g.role(depth+1, sc3, false))
+		}
+	}
+	return ro
+}
+
+// trimExpr removes the blanks at both ends of the template text (only literal pieces can carry
+// them: a tag starts with "{{" and ends with "}}").
+func trimExpr(t texpr) texpr {
+	out := append(texpr{}, t...)
+	for len(out) > 0 && out[0].Lit != nil {
+		s := strings.TrimLeft(*out[0].Lit, " \t\n\r\v\f")
+		if s != "" {
+			out[0] = lit(s)
+			break
+		}
+		out = out[1:]
+	}
+	for len(out) > 0 && out[len(out)-1].Lit != nil {
+		s := strings.TrimRight(*out[len(out)-1].Lit, " \t\n\r\v\f")
+		if s != "" {
+			out[len(out)-1] = lit(s)
+			break
+		}
+		out = out[:len(out)-1]
+	}
+	return out
+}
+
+var faultKinds = []string{"enabled", "defaults", "vars", "name", "s4", "s5", "range", "rangeval"}
+
+func genInput(r *gen.Rand, idx int) *input {
+	in := &input{D: map[string]string{}, V: map[string]string{}, U: map[string]string{}}
+	g := &gctx{r: r, budget: r.Range(3, 14), fault: -1}
+	sc := scope{}
+	put := func(m map[string]string, k, v string) { m[k] = v; sc[k] = true }
+	for _, k := range keyPool {
+		v := r.Pick(valPool)
+		if k == "lst" {
+			v = r.Pick(listVals)
+			if r.Chance(1, 8) {
+				v = r.Pick([]string{"notalist", `[1]`, ``})
+			}
+		}
+		if k == "n" {
+			v = fmt.Sprint(r.Range(0, 3))
+			if r.Chance(1, 10) {
+				v = "many"
+			}
+		}
+		switch r.Intn(6) {
+		case 0:
+			put(in.D, k, v)
+		case 1, 2:
+			put(in.V, k, v)
+		case 3:
+			put(in.U, k, v)
+		case 4:
+			put(in.D, k, r.Pick(valPool))
+			put(in.V, k, v)
+		}
+		if r.Chance(1, 10) { // same key on a second level of precedence
+			put(in.U, k, r.Pick(valPool))
+		}
+	}
+	if sc["lst"] {
+		g.listK = []string{"lst"}
+	}
+	if sc["n"] {
+		g.numK = []string{"n"}
+	}
+	// fault plan: 62% clean, 38% one injected template error of a class cycling with the index
+	if r.Chance(38, 100) {
+		g.fkind = faultKinds[idx%len(faultKinds)]
+		g.fault = r.Range(1, 3)
+		in.Note = "fault:" + g.fkind
+	}
+	in.Root = g.role(1, sc, true)
+	if g.fkind != "" && !g.hit {
+		in.Note += "(not placed)"
+	}
+	return in
+}
+
+// ---------------------------------------------------------------- corpus (runs first)
+
+func tptr(t texpr) *texpr { return &t }
+
+func task(name string) *roleIn { return &roleIn{Kind: "task", Name: tl(name), Load: tl("c")} }
+
+func corpus() []*input {
+	empty := func() map[string]string { return map[string]string{} }
+	var out []*input
+	// witness of C15_error_fails_refuted (C15-a): ill-formed `enabled`
+	t1 := task("t1")
+	t1.Enabled = tptr(texpr{bad(0)})
+	out = append(out, &input{D: empty(), V: empty(), U: empty(), Note: "C15-a witness",
+		Root: &roleIn{Kind: "agg", Name: tl("r"), Kids: []*roleIn{t1, task("t2")}}})
+	// C15-a, undefined variable in `enabled`
+	t1b := task("t1")
+	t1b.Enabled = tptr(texpr{piece{Eq: &[2]string{"nokey", "a"}}})
+	out = append(out, &input{D: empty(), V: empty(), U: empty(), Note: "C15-a undefined variable",
+		Root: &roleIn{Kind: "agg", Name: tl("r"), Kids: []*roleIn{t1b, task("t2")}}})
+	// witness of C15_iterator_enabled_refuted (C15-b)
+	it := &roleIn{Kind: "task", Name: texpr{lit("i"), pvar("it")}, Load: tl("c"),
+		Enabled: tptr(texpr{piece{Eq: &[2]string{"x", "a"}}}),
+		For:     &forIn{Range: tl(`["p"]`), Var: "it"}}
+	out = append(out, &input{D: empty(), V: map[string]string{"x": "a"}, U: empty(), Note: "C15-b witness",
+		Root: &roleIn{Kind: "agg", Name: tl("r"), Kids: []*roleIn{it, task("t2")}}})
+	// C15-b, `enabled` depends on the element
+	it2 := &roleIn{Kind: "task", Name: texpr{lit("i"), pvar("it")}, Load: tl("c"),
+		Enabled: tptr(texpr{piece{Eq: &[2]string{"it", "p"}}}),
+		For:     &forIn{Range: tl(`["p","q"]`), Var: "it"}}
+	out = append(out, &input{D: empty(), V: empty(), U: empty(), Note: "C15-b per element",
+		Root: &roleIn{Kind: "agg", Name: tl("r"), Kids: []*roleIn{it2, task("t2")}}})
+	// witness of C15_no_visibly_empty_refuted (C15-d)
+	e := &roleIn{Kind: "task", Name: texpr{lit("e"), pvar("it")}, Load: tl("c"), For: &forIn{Range: tl(`[]`), Var: "it"}}
+	out = append(out, &input{D: empty(), V: empty(), U: empty(), Note: "C15-d witness",
+		Root: &roleIn{Kind: "agg", Name: tl("r"), Kids: []*roleIn{task("t2"), {Kind: "agg", Name: tl("g"), Kids: []*roleIn{e}}}}})
+	// C15-d, all elements disabled
+	q := task("q")
+	q.Enabled = tptr(texpr{pvar("en")})
+	e2 := &roleIn{Kind: "agg", Name: texpr{lit("e"), pvar("it")}, For: &forIn{BE: true, Begin: tl("3"), End: tl("4"), Var: "it"},
+		Vars: []field{{"en", tl("false")}}, Kids: []*roleIn{q}}
+	out = append(out, &input{D: empty(), V: empty(), U: empty(), Note: "C15-d all elements disabled",
+		Root: &roleIn{Kind: "agg", Name: tl("r"), Kids: []*roleIn{task("t2"), {Kind: "agg", Name: tl("g"), Kids: []*roleIn{e2}}}}})
+	// the example of C15_nonvacuous
+	z := task("z")
+	z.Enabled = tptr(texpr{piece{Ne: &[2]string{"x", "a"}}})
+	h := &roleIn{Kind: "call", Name: tl("h"), Func: tl("f()"), Return: tl(""), Enabled: tptr(texpr{piece{Eq: &[2]string{"x", "a"}}})}
+	iagg := &roleIn{Kind: "agg", Name: texpr{lit("i"), pvar("it")}, For: &forIn{Range: tl(`["p","q"]`), Var: "it"},
+		Vars: []field{{"w", texpr{pvar("it")}}}, Kids: []*roleIn{task("c"), z}}
+	out = append(out, &input{D: empty(), V: map[string]string{"x": "a"}, U: empty(), Note: "nonvacuous example",
+		Root: &roleIn{Kind: "agg", Name: tl("r"), Defaults: []field{{"d", texpr{lit("D"), pvar("x")}}}, Kids: []*roleIn{iagg, h}}})
+	// several siblings failing at once (error accumulation under concurrency)
+	var fk []*roleIn
+	for i := 0; i < 4; i++ {
+		t := task(fmt.Sprintf("f%d", i))
+		t.Vars = []field{{"a", texpr{pvar("nope")}}}
+		fk = append(fk, t)
+	}
+	out = append(out, &input{D: empty(), V: empty(), U: empty(), Note: "four failing siblings",
+		Root: &roleIn{Kind: "agg", Name: tl("r"), Kids: fk}})
+	// one failing element among several, inside an iterator (the repaired lost-error race)
+	inner := task("inner")
+	inner.Enabled = tptr(texpr{piece{Eq: &[2]string{"it", "2"}}}) // live for one element only
+	inner.Vars = []field{{"b", texpr{pvar("nope")}}}
+	fi := &roleIn{Kind: "agg", Name: texpr{lit("i"), pvar("it")}, For: &forIn{BE: true, Begin: tl("1"), End: tl("4"), Var: "it"},
+		Kids: []*roleIn{task("ok"), inner}}
+	out = append(out, &input{D: empty(), V: empty(), U: empty(), Note: "failing children inside an iterator",
+		Root: &roleIn{Kind: "agg", Name: tl("r"), Kids: []*roleIn{fi, task("t2")}}})
+	// disabled root
+	out = append(out, &input{D: empty(), V: map[string]string{"on": "false"}, U: empty(), Note: "disabled root",
+		Root: &roleIn{Kind: "agg", Name: texpr{lit("r"), pvar("on")}, Enabled: tptr(texpr{pvar("on")}),
+			Vars: []field{{"v", texpr{pvar("on")}}}, Kids: []*roleIn{task("t2")}}})
+	// iteration variable against user vars, vars and own vars of the same name
+	sh := &roleIn{Kind: "agg", Name: texpr{lit("s"), pvar("it")}, For: &forIn{Range: tl(`["p","q"]`), Var: "it"},
+		Vars: []field{{"it", tl("own")}, {"w", texpr{pvar("it")}}},
+		Kids: []*roleIn{{Kind: "task", Name: texpr{lit("c"), pvar("it")}, Load: texpr{lit("l-"), pvar("w")}}}}
+	out = append(out, &input{D: map[string]string{"it": "d"}, V: map[string]string{"it": "v"}, U: map[string]string{"it": "u"}, Note: "iteration variable shadowing",
+		Root: &roleIn{Kind: "agg", Name: tl("r"), Kids: []*roleIn{sh}}})
+	return out
+}
+
+// ---------------------------------------------------------------- race reports (-race build)
+
+func raceSites(logGlob string) []int {
+	files, _ := filepath.Glob(logGlob)
+	seen := map[int]bool{}
+	for _, f := range files {
+		raw, err := os.ReadFile(f)
+		if err != nil {
+			continue
+		}
+		for _, rep := range strings.Split(string(raw), "WARNING: DATA RACE")[1:] {
+			site := 3
+			switch {
+			case strings.Contains(rep, "iteratorrole.go"):
+				site = 1
+			case strings.Contains(rep, "aggregatorrole.go"):
+				site = 2
+			}
+			seen[site] = true
+		}
+	}
+	var out []int
+	for s := range seen {
+		out = append(out, s)
+	}
+	sort.Ints(out)
+	return out
+}
+
+func reexecWithRaceLog(outDir string) {
+	logPath := filepath.Join(outDir, "race_report")
+	old, _ := filepath.Glob(logPath + "*")
+	for _, f := range old {
+		os.Remove(f)
+	}
+	cmd := exec.Command(os.Args[0], os.Args[1:]...)
+	cmd.Env = append(os.Environ(), "VERIF_C15_CHILD=1", "GORACE=halt_on_error=0 exitcode=0 log_path="+logPath)
+	cmd.Stdout, cmd.Stderr = os.Stdout, os.Stderr
+	if err := cmd.Run(); err != nil {
+		fmt.Fprintln(os.Stderr, "h15 child:", err)
+		os.Exit(1)
+	}
+	os.Exit(0)
+}
+
+// ---------------------------------------------------------------- main
+
+func main() {
+	logrus.SetOutput(io.Discard)
+	logrus.SetLevel(logrus.PanicLevel)
+	viper.Set("config_endpoint", "mock://")
+	o := gen.ParseFlags()
+	if raceEnabled && os.Getenv("VERIF_C15_CHILD") == "" {
+		reexecWithRaceLog(o.Out)
+	}
+
+	var cases []gen.Case
+	if o.Replay != "" {
+		ins, kinds, err := gen.LoadReplay(o.Replay)
+		if err != nil {
+			panic(err)
+		}
+		for i, raw := range ins {
+			if kinds[i] == "race" {
+				continue
+			}
+			var in input
+			if err := json.Unmarshal(raw, &in); err != nil {
+				panic(err)
+			}
+			if in.Root == nil {
+				continue
+			}
+			cases = append(cases, runCase(&in, kinds[i]))
+		}
+	} else {
+		for _, in := range corpus() {
+			cases = append(cases, runCase(in, "corpus"))
+		}
+		extra, _ := filepath.Glob("/verif/corpus/C15/*.json")
+		sort.Strings(extra)
+		for _, f := range extra {
+			raw, err := os.ReadFile(f)
+			if err != nil {
+				continue
+			}
+			var in input
+			if json.Unmarshal(raw, &in) == nil && in.Root != nil {
+				cases = append(cases, runCase(&in, "corpus"))
+			}
+		}
+		r := gen.NewRand(o.Seed)
+		for i := 0; i < o.N; i++ {
+			in := genInput(r.Fork(), i)
+			kind := "clean"
+			if in.Note != "" {
+				kind = in.Note
+			}
+			cases = append(cases, runCase(in, kind))
+		}
+	}
+	extraMeta := map[string]any{"race_build": raceEnabled, "loads_per_case": len(settings)}
+	if raceEnabled {
+		sites := raceSites(filepath.Join(o.Out, "race_report") + "*")
+		extraMeta["race_sites"] = sites
+		for _, s := range sites {
+			cases = append(cases, gen.Case{Term: fmt.Sprintf("CRace %d", s), Kind: "race",
+				Input: map[string]any{"race_site": s}, Obs: "see " + filepath.Join(o.Out, "race_report") + ".*"})
+		}
+	}
+	if err := gen.WriteCases(o, "C15", "From Verif Require Import Load.", "c15_case", "report15", cases, extraMeta); err != nil {
+		panic(err)
 	}
 }
